@@ -77,7 +77,12 @@ func vK20b() {
 	for t := 0; t < nThreads; t++ {
 		ops := make([]int, nOps)
 		for i := range ops {
-			ops[i] = vChoose(3)
+			if vParam("ROLES", 0) == 1 {
+				// one builder and concurrent cancellers of the same build
+				ops[i] = []int{0, 1, 1, 2}[t%4]
+			} else {
+				ops[i] = vChoose(3)
+			}
 		}
 		wg.Add(1)
 		go func() {
